@@ -89,7 +89,20 @@ def run_C20(repo, tier, seed):
     ev = 0
     failures, samples = [], []
     S = steps(repo)
-    data = curves_checks.planted(seed * 13 + 2)
+    # a planted dataset on which every step has something to do (rise / recession refuse a dataset in which no grid
+    # level is shared by two intervals)
+    data = None
+    for cand in range(seed * 13 + 2, seed * 13 + 42):
+        trial = curves_checks.planted(cand)
+        try:
+            curves_checks.workflow(repo, trial, 1.0)
+            data = trial
+            break
+        except Exception:
+            continue
+    if data is None:
+        return {"bound": "no planted dataset on which all five steps complete", "evaluations": 0, "distinct": 0, "exhaustive": False,
+                "failures": [{"key": "no-dataset", "input": {"seed": seed}, "observed": "every candidate dataset made a step fail"}], "samples": []}
     d = tempfile.mkdtemp(prefix="spowtd_verif_c20_")
     try:
         base = os.path.join(d, "base.sqlite3")
